@@ -441,12 +441,17 @@ Qed.
 Ltac path_contra :=
   exfalso; first [ lra | match goal with H : _ <> _ |- _ => apply H; lra end ].
 (* decide every comparison of the model with the path facts (a branch the path excludes must be refutable) *)
-Ltac decide_ifs :=
+Ltac decide_ifs_raw :=
   repeat match goal with
   | |- context [Reqb ?a ?b] => destruct (Reqb_spec a b); try path_contra
   | |- context [Rltb ?a ?b] => destruct (Rltb_spec a b); try path_contra
   | |- context [Rleb ?a ?b] => destruct (Rleb_spec a b); try path_contra
   end.
+(* quotients are named first, so that lra sees `(b - a) * t` and `t * (b - a)` as the same monomials *)
+Ltac abstract_quotients :=
+  repeat match goal with |- context [?x / ?y] => let t := fresh "quo" in set (t := x / y) in * end.
+Ltac restore_quotients := repeat match goal with t := _ / _ |- _ => subst t end.
+Ltac decide_ifs := abstract_quotients; decide_ifs_raw; restore_quotients.
 (* a non-zero side condition of `field` from a path fact about a ring-equal expression *)
 Ltac nonzero_from_path :=
   repeat split;
